@@ -412,6 +412,153 @@ def gen_iterc(rng):
                                          " ".join(map(str, cen)), fmt_mesh(mesh, False))
 
 
+# ---------------------------------------------------------------------------------------------
+# boundary sizes (rank counts, neighbour counts, entity indices crossing 127/128, 255/256, 1000, 2^15, 2^16)
+# ---------------------------------------------------------------------------------------------
+
+def mesh_chain(n):
+    """1-D chain of n cells, vertices 0..n"""
+    return {"shape": "h1", "D": 1, "num": [n + 1, n], "IS": {(1, 0): [[i, i + 1] for i in range(n)]},
+            "coords": [(Fraction(i),) for i in range(n + 1)], "pos": [(i,) for i in range(n)]}
+
+
+def mesh_fan(k):
+    """closed fan of k triangles around vertex k (the HIGHEST vertex index): every triangle touches every other one"""
+    ctr = k
+    cells = [[ctr, i, (i + 1) % k] for i in range(k)]
+    edges = {}
+    IS10, IS21 = [], []
+    for c in cells:
+        row = []
+        for (a, b) in EDGES["s2"]:
+            key = frozenset((c[a], c[b]))
+            if key not in edges:
+                edges[key] = len(IS10)
+                IS10.append([c[a], c[b]])
+            row.append(edges[key])
+        IS21.append(row)
+    import math
+    coords = [(Fraction(int(1000 * math.cos(2 * math.pi * i / k))), Fraction(int(1000 * math.sin(2 * math.pi * i / k))))
+              for i in range(k)] + [(Fraction(0), Fraction(0))]
+    return {"shape": "s2", "D": 2, "num": [k + 1, len(IS10), k], "IS": {(1, 0): IS10, (2, 0): cells, (2, 1): IS21},
+            "coords": coords, "pos": [(i, 0) for i in range(k)]}
+
+
+def mesh_strip(n):
+    """n x 1 strip of quadrilaterals: neighbouring cells share an edge (two vertices)"""
+    cells = [[i, i + 1, n + 1 + i, n + 2 + i] for i in range(n)]
+    edges, IS10, IS21 = {}, [], []
+    for c in cells:
+        row = []
+        for (a, b) in EDGES["h2"]:
+            key = frozenset((c[a], c[b]))
+            if key not in edges:
+                edges[key] = len(IS10)
+                IS10.append([c[a], c[b]])
+            row.append(edges[key])
+        IS21.append(row)
+    coords = [(Fraction(i), Fraction(0)) for i in range(n + 1)] + [(Fraction(i), Fraction(1)) for i in range(n + 1)]
+    return {"shape": "h2", "D": 2, "num": [2 * n + 2, len(IS10), n], "IS": {(1, 0): IS10, (2, 0): cells, (2, 1): IS21},
+            "coords": coords, "pos": [(i, 0) for i in range(n)]}
+
+
+def gen_boundary(quick):
+    """(cases compared with the model, oracle-only cases)"""
+    mod, big = [], []
+    # rank counts crossing 127/128, 255/256: one cell per rank on a chain
+    for n in ([127, 128, 129, 256, 257] if quick else [127, 128, 129, 255, 256, 257]):
+        m = mesh_chain(n)
+        mod.append("extract h1 %s %s" % (fmt_mesh(m, False), fmt_graph(n, [[c] for c in range(n)])))
+    # neighbour counts crossing 127/128 (255/256 in thorough): one fan triangle per rank, all share the centre vertex
+    for k in ([128, 129, 130] if quick else [128, 129, 130, 256, 257, 258]):
+        m = mesh_fan(k)
+        mod.append("extract s2 %s %s" % (fmt_mesh(m, False), fmt_graph(k, [[c] for c in range(k)])))
+    # rank numbers crossing 127/128 and 255/256 as DUPLICATE neighbours (two shared vertices): strips of quads, one per rank
+    for n in ([129, 257, 258] if quick else [127, 128, 129, 255, 256, 257, 258]):
+        m = mesh_strip(n)
+        mod.append("extract h2 %s %s" % (fmt_mesh(m, False), fmt_graph(n, [[c] for c in range(n)])))
+    # a rank with > 128 neighbours sitting at the HIGH end: fan of 131, ranks 0..129 one triangle each, rank 130 last
+    m = mesh_fan(131)
+    mod.append("extract s2 %s %s" % (fmt_mesh(m, False), fmt_graph(131, [[c] for c in range(130)][::-1] + [[130]])))
+    # entity indices crossing 1000/1001: long chains, all rank boundaries at the high end
+    for n in (999, 1000, 1001):
+        m = mesh_chain(n)
+        rows = [list(range(0, n - 3)), [n - 3, n - 2], [n - 1]]
+        mod.append("extract h1 %s %s" % (fmt_mesh(m, False), fmt_graph(n, rows)))
+    # 2-D, vertex indices crossing 127/128 and 255/256 with the shared entities at the high end: strips of quads
+    # Parti2Lvl around the boundaries
+    for sh, n, r in (("h1", 1, 128), ("h1", 1, 256), ("h1", 127, 254), ("h1", 129, 258), ("h1", 1, 127), ("h1", 1, 129),
+                     ("h1", 1, 255), ("h1", 1, 257), ("h2", 2, 256), ("h2", 1, 1024), ("h1", 1000, 1000), ("h1", 1001, 1001),
+                     ("h1", 125, 1000), ("h1", 1, 1000), ("s2", 4, 256), ("h3", 2, 128)):
+        mod.append("p2l %s %d %d" % (sh, n, r))
+    # PartiIterative distance: the threshold is computed with a floating point root - cell counts that are perfect powers
+    for shape, grid in (("h2", (2, 2)), ("h2", (3, 3)), ("h2", (4, 4)), ("h2", (5, 5)), ("h2", (11, 11)), ("h3", (2, 2, 2)),
+                        ("h3", (3, 3, 3)), ("h3", (4, 4, 4)), ("h3", (5, 5, 5))):
+        msh = build_mesh(random.Random(7), shape, grid=grid)
+        n = msh["num"][msh["D"]]
+        for np_ in (1, n):
+            mod.append("idist %s %d %d %d %s" % (shape, np_, n - 1, iter_threshold(n, msh["D"], np_), fmt_mesh(msh, False)))
+    if not quick:
+        for n in (1000, 1001):
+            m = mesh_chain(n)
+            big.append("extract h1 %s %s" % (fmt_mesh(m, False), fmt_graph(n, [[c] for c in range(n)])))
+        # 2^15 / 2^16 entities in one patch: oracle only (the list model is quadratic), boundaries at the high end
+        for n in (32767, 32768, 65535, 65536, 65537):
+            m = mesh_chain(n)
+            rows = [list(range(0, n - 3)), [n - 3, n - 2], [n - 1]]
+            big.append("extract h1 %s %s" % (fmt_mesh(m, False), fmt_graph(n, rows)))
+    return mod, big
+
+
+def gen_hsplit_grid(quick):
+    """two-layer partitioning, deterministic: 2x2 parents x 2x2 children on a 4x4 grid (quads, triangles) and the 3-D
+    analogue 2x2x2 parents x 2x2x2 children on a 4x4x4 grid - children of different parents touching in an edge or a
+    single vertex, processed one after the other by the same PatchHaloSplitter"""
+    out = []
+    for shape, grid in (("h2", (4, 4)), ("s2", (4, 4)), ("h3", (4, 4, 4))) + (() if quick else (("s3", (4, 4, 4)),)):
+        for seed in ((21, 22) if quick else (21, 22, 23, 24)):
+            mesh = build_mesh(random.Random(seed), shape, grid=grid)
+            D = mesh["D"]
+            n = mesh["num"][D]
+            par = [sum((q[a] // 2) << a for a in range(D)) for q in mesh["pos"]]
+            chi = [sum((q[a] % 2) << a for a in range(D)) for q in mesh["pos"]]
+            rows = [[c for c in range(n) if par[c] == r] for r in range(1 << D)]
+            out.append("hsplit %s %s %s %d %s" % (shape, fmt_mesh(mesh, False), fmt_graph(n, rows), n, " ".join(map(str, chi))))
+    return out
+
+
+def boundary_model_filter(case):
+    """the list model is quadratic+ in the rank count: fans with > 100 ranks and 2^15 / 2^16 chains are judged by the
+    oracle only"""
+    t = case.split()
+    if t[0] == "extract" and t[1] == "s2" and int(t[4]) > 100:
+        return False
+    if t[0] == "extract" and t[1] == "h1" and int(t[3]) > 5000:
+        return False
+    if t[0] == "extract" and t[1] == "h2" and int(t[4]) > 200:
+        return False
+    return True
+
+
+def describe_boundary(case):
+    t = case.split()
+    keys = ["op:" + t[0]]
+    try:
+        if t[0] == "extract":
+            op, shape, d = _parse_case(case)
+            num, IS, n_img, rows = d
+            keys += ["size:cells=%d" % num[DIM[shape]], "size:ranks=%d" % len(rows), "size:vertices=%d" % num[0]]
+            if shape == "s2":
+                keys.append("size:neighbours-per-rank=%d" % (len(rows) - 1))
+        elif t[0] == "p2l":
+            keys += ["size:p2l-cells=%s" % t[2], "size:p2l-ranks=%s" % t[3]]
+        elif t[0] == "idist":
+            keys += ["size:idist-cells=%s" % t[5 + DIM[t[1]]], "size:idist-threshold=%s" % t[4]]
+    except Exception:
+        keys.append("describe-error")
+    return keys
+
+
 def gen_exhaustive(quick):
     """small-scope exhaustive stream: EVERY assignment of the cells of a 2x3 quadrilateral mesh / small triangle meshes
     (<= 6 cells) to 1, 2 and 3 ranks - including the assignments that leave a rank empty (abort class)"""
@@ -1261,7 +1408,8 @@ def main(argv):
         n_ext, n_big, n_p2l, n_ref, n_auto, n_iter = (1500, 60, 300, 260, 120, 60) if quick else (14000, 800, 3000, 3000, 1500, 600)
         ext = CORPUS_EXTRACT + c_ext + gen_contacts(rng, "extract", 2 if quick else 8) + [gen_extract(rng) for _ in range(n_ext)] + [gen_extract(rng, True) for _ in range(n_big)]
         spl = [gen_split(rng) for _ in range(n_ext // 5)]
-        hsp = [gen_hsplit(rng) for _ in range(n_ext // 10)]
+        hsp = gen_hsplit_grid(quick) + [gen_hsplit(rng) for _ in range(n_ext // 10)]
+        bnd_mod, bnd_big = gen_boundary(quick)
         itc = [gen_idist(rng) for _ in range(n_ext // 5)] + [gen_iterc(rng) for _ in range(n_ext // 5)]
         p2l = [gen_p2l(rng) for _ in range(n_p2l)]
         ref = c_oth + gen_contacts(rng, "refine", 1 if quick else 4) + [gen_refine(rng) for _ in range(n_ref)]
@@ -1270,6 +1418,12 @@ def main(argv):
         streams = [
             vlib.Stream("extract", ext, [binary], drv, oracle=oracle, nontrivial=nontrivial, describe=describe,
                         signature=signature, canon=canon),
+            vlib.Stream("boundary-sizes", [c for c in bnd_mod if boundary_model_filter(c)], [binary], drv, oracle=oracle,
+                        nontrivial=lambda c: True, describe=describe_boundary, signature=signature, canon=canon),
+            # rank / neighbour counts the (quadratic) list model cannot evaluate in time: independent oracle only
+            vlib.Stream("boundary-sizes-large", [c for c in bnd_mod if not boundary_model_filter(c)] + bnd_big, [binary],
+                        None, oracle=oracle, nontrivial=lambda c: True, describe=describe_boundary, signature=signature,
+                        canon=canon),
             vlib.Stream("exhaustive-small", gen_exhaustive(quick), [binary], drv, oracle=oracle, nontrivial=nontrivial,
                         describe=describe, signature=signature, canon=canon),
             vlib.Stream("split-meshpart", spl, [binary], drv, oracle=oracle, nontrivial=nontrivial, describe=describe,
